@@ -40,6 +40,8 @@ knowledge of the CeCILL-B license and that you accept its terms.
 #ifndef RMINT_COMMON_DEFINE_H
 #define RMINT_COMMON_DEFINE_H
 
+#include <type_traits>
+
 // --------------------------------------------------------------
 // ------------------------ rmint tools -------------------------
 
@@ -56,6 +58,16 @@ namespace RecInt
 
     /* Class rmint is a template */
     template <size_t K, size_t MG = MG_DEFAULT> class rmint;
+
+    /* |b| of a signed arithmetic value, without overflow: the magnitude of an integer is taken in the
+       unsigned type (-b is undefined for the minimum of the type), floating values keep their type. */
+    template <typename T, bool = std::is_integral<T>::value> struct rm_magnitude_t { typedef T type; };
+    template <typename T> struct rm_magnitude_t<T, true> { typedef typename std::make_unsigned<T>::type type; };
+    template <typename T>
+    inline typename rm_magnitude_t<T>::type rm_magnitude(const T b) {
+        typedef typename rm_magnitude_t<T>::type U;
+        return (b < 0) ? U(U(0) - U(b)) : U(b);
+    }
 }
 
 #endif
